@@ -22,7 +22,8 @@ RULE = ("op histories over a byte-rich name pool (bytes 0x01-0xff except '/'), <
         "0..3 blocks, maxBlockSize in {1,2,3,4,7,8,16,64} (+ smoke cases at 64 MiB), starting from empty or from a "
         "generated manifest text (repeated/adjacent locators, hints, zero-length blocks and tokens, split files, "
         "markers), with marshal/sync/flush sprinkled in and Keep failure scripts: none | k-th write | random bits "
-        "per op | background-only | final-save-only | all-fail; plus pure load->marshal cases and malformed texts; "
+        "per op | background-only | final-save-only | all-fail | held (a background flush whose Keep writes stay in "
+        "flight while truncates/writes/renames run); plus pure load->marshal cases and malformed texts; "
         "non-trivial = at least one successful save of a tree holding data, distinct = distinct case line")
 ASSUMPTIONS = [
     "background flushes are observed at quiescence (driver waits after every op); with a failure script the "
@@ -451,7 +452,9 @@ def judge(fs, op, res):
         del parent.kids[base]
         return None
 
-    if kind == "flush":
+    if kind == "release":
+        return None if res == "ok" else "release answered " + res
+    if kind in ("flush", "hflush"):
         node = fs.resolve(unpath(a[1]))
         if node is None or not node.is_dir:
             return None if res != "ok" else "flush of a missing directory succeeded"
@@ -535,6 +538,10 @@ def replay(case, impl):
     if loaded != "ok":
         return None      # lenient acceptance outside 'any valid manifest': contents are not specified
     init_locs = set(loc for _, bl, _ in streams for loc, _ in bl)
+    if "hang" in parts:
+        i = parts.index("hang") - 1
+        return ("op %d (%s): did not return (a Keep write slot stays taken or the call blocks for ever): "
+                "a later save cannot succeed" % (i, ops[i][:60] if 0 <= i < len(ops) else "?"))
     if len(parts) != len(ops) + 1:
         return "result count %d for %d ops" % (len(parts) - 1, len(ops))
     for i, (op, r) in enumerate(zip(ops, parts[1:])):
@@ -770,7 +777,7 @@ def _pick_path(rng, fs, want, odd):
 
 
 FLAGSETS = ["R", "W", "B", "Bc", "Wc", "Bct", "Wct", "Wa", "Ba", "Bca", "Wca", "Bcx", "Wcx", "Bt", "Wt", "Bcd"]
-MODES = ["none", "none", "none", "kth", "bits", "background", "final", "allfail"]
+MODES = ["none", "none", "none", "kth", "bits", "background", "final", "allfail", "held"]
 
 
 def _script(rng):
@@ -789,7 +796,8 @@ def _gen_case(rng, tier, maxb=None, nops=None, mode=None, odd=None, del7f=False)
     maxb = maxb or rng.choice(BLOCKS)
     mode = mode or rng.choice(MODES)
     odd = rng.choice([0.0, 0.15, 0.15, 0.5]) if odd is None else odd
-    cw = 4 if mode == "none" else 1
+    cw = 4 if mode == "none" else 1000 if mode == "held" else 1
+    holding = [False]      # mode "held": Keep writes of a background flush are in flight
     text, blocks = (_gen_manifest(rng, odd) if rng.random() < 0.4 else (b"", []))
     fs = PlainFS()
     streams, _ = check_grammar(text)
@@ -878,10 +886,51 @@ def _gen_case(rng, tier, maxb=None, nops=None, mode=None, odd=None, del7f=False)
         elif r < 0.88:
             ops.append("%s,%s" % (rng.choice(["remove", "remove", "removeall"]), _hp(_pick_path(rng, fs, "any", odd))))
             sim(ops[-1])
-        elif r < 0.92:
+        elif r < 0.92 or (mode == "held" and r < 0.97 and not holding[0]):
             if mode == "bits" and rng.random() < 0.5:
                 ops.append("keep," + _script(rng))
             p = _pick_path(rng, fs, "dir", odd) if rng.random() < 0.5 else b""
+            if mode == "held" and not holding[0] and rng.random() < 0.8:
+                # hold the Keep writes of this background flush while a few more ops run
+                ops.append("hflush,%s,%d" % (_hp(p if rng.random() < 0.3 else b""), rng.choice([1, 1, 0])))
+                holding[0] = True
+                for _ in range(rng.randint(1, 6)):
+                    hs2 = open_handles()
+                    q = rng.random()
+                    if hs2 and q < 0.45:
+                        h = rng.choice(hs2)
+                        cur = len(fs.h[h].ino.data)
+                        lim = min(maxb, 64)
+                        size = max(0, rng.choice([cur + 1, cur + 2, cur + lim // 2, cur + lim, cur - 1, cur - 2, 0, cur // 2,
+                                                  rng.randint(0, cur + lim)]))
+                        ops.append("trunc,%s,%d" % (h, size))
+                        sim(ops[-1])
+                    elif hs2 and q < 0.75:
+                        h = rng.choice(hs2)
+                        if rng.random() < 0.5:
+                            size = len(fs.h[h].ino.data)
+                            off = rng.choice([0, size, rng.randint(0, size + 2)])
+                            ops.append("seek,%s,%d,0" % (h, off))
+                            sim(ops[-1], "%d,ok" % off)
+                        ops.append("write,%s,%s" % (h, _data(rng, maxb).hex()))
+                        sim(ops[-1], "%d,ok" % (len(ops[-1].split(",")[2]) // 2))
+                    elif q < 0.85:
+                        ops.append("flush,%s,%d" % (_hp(b""), rng.randint(0, 1)))
+                    elif q < 0.93:
+                        src = _pick_path(rng, fs, "any", odd)
+                        dst = _pick_path(rng, fs, "new", odd)
+                        a_, b_ = fs.split(src), fs.split(dst)
+                        if not (a_[0] is not None and a_[0] is b_[0] and (b_[1] or a_[1]) == a_[1]):
+                            ops.append("rename,%s,%s" % (_hp(src), _hp(dst)))
+                            sim(ops[-1])
+                    else:
+                        ops.append("remove,%s" % _hp(_pick_path(rng, fs, "file", odd)))
+                        sim(ops[-1])
+                ops.append("release")
+                holding[0] = False
+                if rng.random() < 0.7:
+                    ops.append("marshal")
+                continue
             ops.append("flush,%s,%d" % (_hp(p), rng.randint(0, 1)))
         elif r < 0.97:
             if mode == "bits" and rng.random() < 0.6:
